@@ -308,6 +308,18 @@ class Frame:
                 else:
                     new = ('dictdel', base if base is not None else ('opaque', t.value.id), k)
                 self.update_name(t.value.id, new)
+            elif isinstance(t, ast.Subscript) and not isinstance(t.value, ast.Name) and self.is_place(t.value):
+                # del obj.attr[k] / del lst[i][k]: the same update on a place that is not a plain name
+                base = self.place_get(t.value)
+                k = self.ex(t.slice)
+                if base[0] == 'dict' and T.isconst(k):
+                    new = ('dict', tuple((kk, vv) for kk, vv in base[1] if kk != k[1]))
+                else:
+                    new = ('dictdel', base, k)
+                g = self.guard()
+                self.place_set(t.value, new if g == TRUE else T.gamma(g, new, base))
+            elif isinstance(t, ast.Subscript):
+                self.ctx.opaque.append((f'del {ast.unparse(t)}', self.where(s)))
             elif isinstance(t, ast.Name):
                 self.env.pop(t.id, None)
         return FALL
@@ -322,7 +334,16 @@ class Frame:
             if isinstance(e, ast.Call):
                 e = e.func
             name = ast.unparse(e)
-        self.ctx.raises.append((name, self.guard(), self.where(s)))
+            # raise helper(...): the exception type is what the helper constructs in every return
+            if isinstance(s.exc, ast.Call) and isinstance(e, ast.Name) and e.id not in self.env:
+                r_ = self.ctx.model.resolve(self.mod, e.id)
+                if isinstance(r_, str) and r_ in self.ctx.model.funcs:
+                    rets = [x.value for x in ast.walk(self.ctx.model.funcs[r_].node) if isinstance(x, ast.Return)]
+                    kinds = {ast.unparse(x.func) for x in rets if isinstance(x, ast.Call)}
+                    if rets and len(kinds) == 1 and all(isinstance(x, ast.Call) for x in rets):
+                        name = kinds.pop()
+        # after an earlier `return` on another path, this statement is reached only where that return was not taken
+        self.ctx.raises.append((name, T.and_([self.guard()] + list(self.ret_perm)), self.where(s)))
         return RAISE
 
     def st_Break(self, s):
